@@ -496,14 +496,17 @@ def run_check(prop, tier, seed):
         print(line)
     print('%s tier=%s functions=%d obligations=%d discharged=%d violations=%d undecided=%d wall=%.1fs'
           % (prop, tier, len(functions), n_obl, n_dis, len(violations), len(undecided), wall))
+    if vio_lines:
+        # a violation established by one obligation stands whatever happened to another part of the check
+        for v in vio_lines:
+            print(v)
+        for fl in failures:
+            print('CHECKER-FAILURE:', fl)
+        return 1
     if failures:
         for fl in failures:
             print('CHECKER-FAILURE:', fl)
         return 3
-    if vio_lines:
-        for v in vio_lines:
-            print(v)
-        return 1
     if undecided:
         for u in undecided[:20]:
             print('UNDECIDED:', u)
